@@ -139,6 +139,8 @@ func (*c08) Oracle(ci, oi any) []hx.Violation {
 		return c08OracleSort(c, obs)
 	case "full":
 		return c08OracleFull(c, obs)
+	case "guard":
+		return c08OracleGuard(c, obs)
 	case "uninstall":
 		return c08OracleUninstall(c, obs)
 	case "barrier":
